@@ -24,6 +24,7 @@ def ops_for(dev):
         ('resize2fs -M', [R, '-z', '{u}', '-f', '-M', '{d}']),
         ('e2fsck -fyD', [F, '-z', '{u}', '-fyD', '{d}']),
         ('e2fsck -fy bmap2extent', [F, '-z', '{u}', '-fy', '-E', 'bmap2extent', '{d}']),
+        ('e2fsck -fy -E discard', [F, '-z', '{u}', '-fy', '-E', 'discard', '{d}']),           # discards every free range through the undo manager
         ('debugfs write', [D, '-w', '-z', '{u}', '-R', 'write {payload} /undo_new', '{d}']),
         ('debugfs fill', [D, '-w', '-z', '{u}', '-R', 'write {big} /undo_big', '{d}']),
         ('debugfs rm+mkdir', [D, '-w', '-z', '{u}', '-f', '{script}', '{d}']),
@@ -218,8 +219,20 @@ def main(tier, only=None):
         return d + b''.join((('TAIL%06d|' % i).encode() * 64)[:512] for i in range(extra // 512))
     DEVS = {'ext2': fsweep.base_data('ext2'), 'ext4csum': fsweep.base_data('ext4csum'), 'bs4k': fsweep.base_data('bs4k'),
             'ext2+8k': stamp(fsweep.base_data('ext2'), 8192), 'ext2+1k': stamp(fsweep.base_data('ext2'), 1024 + 512)}
+    def garbage_in_free_space(d):
+        # every free block (per the block bitmaps) holds a non-zero stamp, like a device on which files were deleted: a discard wipes them, undo has to bring them back
+        from xck.image import Image
+        im = Image(d); b = bytearray(d)
+        for g in range(im.groups):
+            bm = im.block_bitmap(g); f0 = im.group_first_block(g)
+            if bm is None: continue
+            for i in range(im.group_nblocks(g)):
+                if not (bm[i >> 3] >> (i & 7)) & 1:
+                    blk = f0 + i; b[blk * im.bs:(blk + 1) * im.bs] = (('FREE%07d|' % blk).encode() * (im.bs // 12 + 1))[:im.bs]
+        return bytes(b)
+    DEVS['ext4csum+stale'] = garbage_in_free_space(fsweep.base_data('ext4csum'))
     if not quick:
-        DEVS.update({'metabg': fsweep.base_data('metabg'), 'ext3': fsweep.base_data('ext3'), 'ext4csum+5k': stamp(fsweep.base_data('ext4csum'), 5 * 1024)})
+        DEVS.update({'metabg': fsweep.base_data('metabg'), 'ext3': fsweep.base_data('ext3'), 'ext4csum+5k': stamp(fsweep.base_data('ext4csum'), 5 * 1024), 'ext2+stale': garbage_in_free_space(fsweep.base_data('ext2'))})
     # filesystem at offset 4096 (built with the tree's mke2fs, populated)
     po = os.path.join(sc, 'off.img')
     with open(po, 'wb') as f: f.write(b''.join((('HEAD%06d|' % i).encode() * 64)[:512] for i in range(8)))
@@ -231,11 +244,11 @@ def main(tier, only=None):
     labels = [o[0] for o in OPS]
     jobs = []
     for dn in DEVS:
-        L = labels if not (quick and dn in ('bs4k', 'ext2+1k')) else sorted(set(labels[::2] + ['debugfs zap 150 scattered blocks']), key=labels.index)
+        L = labels if not (quick and dn in ('bs4k', 'ext2+1k')) else sorted(set(labels[::2] + ['debugfs zap 150 scattered blocks', 'e2fsck -fy -E discard']), key=labels.index)
         for a in L:
             jobs.append((dn, (a,), False, 'chain'))
             jobs.append((dn, (a,), True, 'chain'))
-        second = L if not quick else [l for l in L if l in ('tune2fs -L', 'tune2fs csum toggle', 'resize2fs grow', 'resize2fs shrink', 'e2fsck -fyD', 'debugfs fill', 'debugfs rm+mkdir', 'mke2fs ext2', 'mke2fs ext4 4k', 'debugfs zap 150 scattered blocks')]
+        second = L if not quick else [l for l in L if l in ('tune2fs -L', 'tune2fs csum toggle', 'resize2fs grow', 'resize2fs shrink', 'e2fsck -fyD', 'debugfs fill', 'debugfs rm+mkdir', 'mke2fs ext2', 'mke2fs ext4 4k', 'debugfs zap 150 scattered blocks', 'e2fsck -fy -E discard')]
         for a in L:
             for b in second:
                 jobs.append((dn, (a, b), False, 'chain'))
